@@ -54,6 +54,8 @@ def main():
         wid = os.path.basename(d)
         out = os.path.join(d, "seed_out")
         m = re.match(re.escape(prefix) + r"(\d\d)$", wid)
+        if re.match(r"^W\d+B\d+$", wid):
+            m = None  # W8B10: benign agent number 10 of wave 8, not property C10
         if m:
             prop = "C" + m.group(1)
             for n in (1, 2):
